@@ -54,6 +54,8 @@ let init () =
           (InfoSimple.wavpack_flags (z bc) (z mono) (z mlo) (z ri) (z mhi) (z dsd)) (z crc)
       | "ape", [a1; a2; a3; a4; a5; a6; a7; a8; a9; a10; a11; a12] ->
         InfoSimple.build_ape (z a1) (z a2) (z a3) (z a4) (z a5) (z a6) (z a7) (z a8) (z a9) (z a10) (z a11) (z a12)
+      | "ape_old", [a1; a2; a3; a4; a5; a6; a7; a8; a9] ->
+        InfoSimple.build_ape_old (z a1) (z a2) (z a3) (z a4) (z a5) (z a6) (z a7) (z a8) (z a9)
       | "ofr", [a1; a2; a3; a4; a5; a6] -> InfoSimple.build_ofr (z a1) (z a2) (z a3) (z a4) (z a5) (z a6)
       | "mpc7", [minor; frames; ml; ri; link; prof; mb; ms; is_; tp; tg; ap; ag; tail] ->
         InfoSimple.build_mpc7 (z minor) (z frames)
